@@ -193,6 +193,14 @@ func (c *Check) runJob(j *Job) (jr *JobResult) {
 	if j.NoReplay {
 		cfg.SampleMax = 0
 	}
+	budget := 5 * time.Minute
+	if c.Tier == "thorough" {
+		budget = 40 * time.Minute
+	}
+	if v, err := strconv.Atoi(os.Getenv("SYMGO_JOB_BUDGET_S")); err == nil && v > 0 {
+		budget = time.Duration(v) * time.Second
+	}
+	cfg.Deadline = time.Now().Add(budget)
 	if j.Tune != nil {
 		j.Tune(cfg)
 	}
